@@ -320,7 +320,8 @@ def manifest_suite(ctx, env):
     CENC = '{urn:mpeg:cenc:2013}'
     MSPR = '{urn:microsoft:playready}'
     sels = ['all', 'playready', 'clearkey', 'marlin', 'playready-cenc', 'playready-pro', 'playready-moov', 'playready-pro-cenc',
-            'clearkey-cenc', 'clearkey-moov', 'playready,clearkey', 'playready-moov,marlin', 'playready-cenc-moov,clearkey-cenc-moov']
+            'clearkey-cenc', 'clearkey-moov', 'playready,clearkey', 'playready-moov,marlin', 'playready-cenc-moov,clearkey-cenc-moov',
+            'clearkey-cenc,playready', 'marlin-cenc,clearkey,playready-pro']
     manifests = ['hand_made.mpd', 'manifest_e.mpd'] if ctx.quick() else \
         ['hand_made.mpd', 'manifest_a.mpd', 'manifest_b.mpd', 'manifest_e.mpd', 'manifest_h.mpd', 'manifest_i.mpd', 'manifest_n.mpd']
     tracks = {'video': ('bbb_v7_enc', 'm4v'), 'audio': ('bbb_a1_enc', 'm4a')}
